@@ -121,4 +121,123 @@ Section OverFile.
       destruct (threaded_exactly_once _ _ c Hok Hin) as (H & _).
       rewrite (H Hfin), <- Hs'. symmetry. now apply roundtrip.
   Qed.
+
+  (* ---- a TORN file under a threaded load ---------------------------------- *)
+  (* nothing is stored before the loader has read the file (the crash-recovery
+     case: the new process loads first) *)
+  Definition no_early_store (st : tstate) (l : label) : bool :=
+    match l with
+    | ASto _ | Append _ => match t_ph st with P0 | P2 => false | _ => true end
+    | _ => true
+    end.
+  Fixpoint nes_sched (st : tstate) (sched : list label) : bool :=
+    match sched with
+    | [] => true
+    | l :: r => no_early_store st l && nes_sched (tstep st l) r
+    end.
+
+  Definition R2 (p : bytes) (sf : tstate * bytes) : Prop :=
+    match t_ph (fst sf) with
+    | P0 | P2 => snd sf = p /\ t_store (fst sf) = rev (load_bytes p)
+    | _ => exists rs, Forall valid_rec rs /\ snd sf = p ++ file_of rs /\
+                      t_store (fst sf) = rev (load_bytes p) ++ map snd rs
+    end.
+
+  Lemma cstep_sim2 p st f l :
+    R2 p (st, f) -> label_valid l -> no_early_store st l = true ->
+    fst (cstep (st, f) l) = tstep st l /\ R2 p (cstep (st, f) l).
+  Proof.
+    unfold R2. cbn [fst snd]. intros HR Hl Hn.
+    assert (Hst : forall st' f' s, t_ph st' = t_ph st -> t_store st' = t_store st ++ [s] ->
+                  forallb is_scalar s = true -> f' = f ++ store_bytes (ts_of s) s ->
+                  match t_ph st with P0 | P2 => False | _ => True end ->
+                  match t_ph st' with
+                  | P0 | P2 => f' = p /\ t_store st' = rev (load_bytes p)
+                  | _ => exists rs, Forall valid_rec rs /\ f' = p ++ file_of rs /\
+                                    t_store st' = rev (load_bytes p) ++ map snd rs
+                  end).
+    { intros st' f' s Ep Es Hs Ef Hph. rewrite Ep. destruct (t_ph st); try contradiction;
+        (destruct HR as (rs & Hv & Hf & Hs'); exists (rs ++ [(ts_of s, s)]); split; [|split];
+         [apply Forall_app; split; [exact Hv|]; constructor; [|constructor]; split; [apply ts_ok|exact Hs]
+         |rewrite Ef, Hf, file_of_app, file_of_single, <- app_assoc; reflexivity
+         |rewrite Es, Hs', map_app, <- app_assoc; reflexivity]). }
+    destruct l as [| |i|s|s|s]; cbn [cstep fst snd].
+    - (* loader *)
+      destruct (t_ph st) eqn:E; cbn [fst snd]; unfold tstep; rewrite E.
+      + split; [reflexivity|]. cbn. rewrite E. exact HR.
+      + destruct HR as (Hf & Hs). rewrite Hf, Hs, rev_involutive. split; [reflexivity|].
+        cbn. exists []. cbn. rewrite !app_nil_r. auto.
+      + split; [reflexivity|]. destruct pending; cbn; exact HR.
+      + split; [reflexivity|]. cbn. rewrite E. exact HR.
+    - split; [reflexivity|]. unfold tstep. destruct (t_ph st) eqn:E; cbn; exact HR.
+    - split; [reflexivity|]. cbn. exact HR.
+    - split; [reflexivity|]. cbn. exact HR.
+    - split; [reflexivity|]. cbn [no_early_store] in Hn.
+      apply (Hst (tstep st (ASto s)) _ s); auto; try reflexivity. destruct (t_ph st); try discriminate; auto.
+    - split; [reflexivity|]. cbn [no_early_store] in Hn.
+      apply (Hst (tstep st (Append s)) _ s); auto; try reflexivity. destruct (t_ph st); try discriminate; auto.
+  Qed.
+
+  Lemma crun_sim2 p sched : forall st f,
+    R2 p (st, f) -> Forall label_valid sched -> nes_sched st sched = true ->
+    fst (crun (st, f) sched) = trun st sched /\ R2 p (crun (st, f) sched).
+  Proof.
+    induction sched as [|l r IH]; intros st f HR Hv Hn; [split; [reflexivity|exact HR]|].
+    inversion Hv as [|? ? Hl Hr]; subst. cbn [nes_sched] in Hn. apply andb_true_iff in Hn as [Hn1 Hn2].
+    unfold crun, trun. cbn [fold_left].
+    destruct (cstep_sim2 p st f l HR Hl Hn1) as [E HR'].
+    destruct (cstep (st, f) l) as [st' f'] eqn:Ec. cbn [fst] in E. subst st'.
+    apply (IH _ _ HR' Hr Hn2).
+  Qed.
+
+  (* the storage only grows, and every load() starts on an extension of it *)
+  Lemma store_grows X sched : forall st,
+    pre X (t_store st) -> Forall (fun c => pre X (c_start c)) (t_cons st) ->
+    pre X (t_store (trun st sched)) /\ Forall (fun c => pre X (c_start c)) (t_cons (trun st sched)).
+  Proof.
+    assert (Hext : forall a b, pre X a -> pre X (a ++ b)).
+    { intros a b [t ->]. exists (t ++ b). now rewrite app_assoc. }
+    induction sched as [|l r IH]; intros st Hs Hc; [split; assumption|].
+    unfold trun. cbn [fold_left]. apply IH.
+    - destruct l; cbn [tstep]; unfold asto, ains; cbn [t_store]; auto.
+      + destruct (t_ph st) as [| |[|x q]|]; cbn; auto.
+      + destruct (t_ph st); cbn; auto.
+    - destruct l; cbn [tstep]; unfold asto, ains; cbn [t_cons]; auto.
+      + destruct (t_ph st) as [| |[|x q]|]; cbn [t_cons]; auto;
+          apply Forall_map; (eapply Forall_impl; [|exact Hc]); intros c Hp; unfold set_ev; destruct (c_fin c); exact Hp.
+      + destruct (t_ph st); cbn [t_cons]; apply Forall_app; (split; [exact Hc|]);
+          (constructor; [|constructor]); unfold new_cons; cbn [c_start]; now apply Hext.
+      + apply Forall_upd_nth; [|exact Hc]. intros c Hp. unfold read. destruct (c_fin c); exact Hp.
+  Qed.
+
+  (* ONE statement for "crash, restart, load in a background thread, keep
+     appending": the file is cut at ANY byte (p), the threaded system runs over
+     those bytes under any covered schedule in which nothing is stored before
+     the loader has read the file.  Then the run is the abstract run over
+     S0 = the k completed entries + at most one damaged string, and every
+     finished load() yields: whatever was appended before it started (newest
+     first), then at most one damaged string, then the k completed entries
+     intact and in order. *)
+  Theorem torn_threaded rs0 p sfx sched :
+    Forall valid_rec rs0 -> p ++ sfx = file_of rs0 -> Forall label_valid sched ->
+    let S0 := rev (load_bytes p) in
+    ok_sched (tinit S0) sched = true -> nes_sched (tinit S0) sched = true ->
+    exists k d, complete_in rs0 p k /\ (length d <= 1)%nat /\
+      (p = file_of (firstn k rs0) -> d = []) /\
+      fst (crun (tinit S0, p) sched) = trun (tinit S0) sched /\
+      forall c, In c (t_cons (trun (tinit S0) sched)) -> c_fin c = true ->
+        exists tail, c_out c = rev tail ++ d ++ rev (firstn k (map snd rs0)).
+  Proof.
+    intros Hv E Hlv S0 Hok Hnes.
+    destruct (torn rs0 p sfx Hv E) as (k & d & Hc & Hd & Hl & Hz).
+    exists k, d. split; [exact Hc|]. split; [exact Hd|]. split; [exact Hz|].
+    assert (HR0 : R2 p (tinit S0, p)) by (unfold R2; cbn; auto).
+    destruct (crun_sim2 p sched _ _ HR0 Hlv Hnes) as [Esim _]. split; [exact Esim|].
+    intros c Hin Hfin.
+    destruct (threaded_exactly_once S0 sched c Hok Hin) as (Hout & _).
+    destruct (store_grows S0 sched (tinit S0)) as [_ Hpre]; [apply pre_refl|constructor|].
+    rewrite Forall_forall in Hpre. destruct (Hpre c Hin) as [tail Ht].
+    exists tail. rewrite (Hout Hfin), Ht, rev_app_distr. unfold S0. rewrite rev_involutive, Hl.
+    reflexivity.
+  Qed.
 End OverFile.
